@@ -33,6 +33,7 @@ func runC07(c *Ctx) {
 		c.R.Count("reader call sites["+cfg.Name+"]", n)
 		c.R.Floor("C07.errors", cfg.Name, n, 190)
 		ruleReadFull(c, p, "C07.readfull")
+		ruleReaderSource(c, p, "C07.source")
 	}
 	// consumption: the decoders consume everything the encoders emit (C17 / C01 containments, shared)
 	if p := c.Prog(core.CfgDefault); p != nil {
@@ -41,6 +42,7 @@ func runC07(c *Ctx) {
 		ruleShapePairs(c, p, "C07.consume", pairs, false)
 		ruleGates(c, p, pairs, "C07.consume")
 		ruleColumnShapeAs(c, p, "C07.consume")
+		ruleInferTables(c, p, "C07")
 	}
 	c.R.Assumptions = append(c.R.Assumptions,
 		"io.ReadFull / binary.ReadUvarint / bufio return an error on every short read (standard library contract)",
